@@ -366,13 +366,19 @@ theorem struct_lookup_stable (s : St) (b o : Nat) (hc : s.scache b = some o) (hn
   unfold getStruct
   simp [hc, hn]
 
+/-- "function `t` is mocked with implementation `imp`" in state `post`: its bytes are the pristine bytes with exactly one entry jump,
+    which differs from the pristine entry and leads to `imp` — to the implementation's own funcval, or, for a generic
+    target, to an installed dictionary-dropping adapter that forwards to it -/
+def MockedWith (env : Env) (post : St) (t : Nat) (imp : Imp) : Prop :=
+  ∃ a, post.text t = overwrite (env.pristine t) (jumpTo a) ∧ jumpTo a ≠ (env.pristine t).take 13 ∧ Denotes env post a imp ∧
+    (env.generic t = false → a = impAddr env imp)
+
 /-- re-mock through any cache owner whose entry for the key is cancelled (or absent): `Apply` succeeds -/
 theorem remock_core {env : Env} (he : EnvOk env) {s1 : St} (i1 : Inv env s1) (o key k : Nat)
     (hcan : ∀ id, s1.cache o key = some id → (s1.mockers id).canceled = true)
     (hsz : 13 < env.funcSize (key % 1000))
     (hnop : Gen.Amd64.checkAlreadyPatch ((env.pristine (key % 1000)).take 13) = false) :
-    (doApply env s1 o key k none).2 = none ∧
-    (doApply env s1 o key k none).1.text (key % 1000) = overwrite (env.pristine (key % 1000)) (jumpTo (env.cbAddr k)) := by
+    (doApply env s1 o key k none).2 = none ∧ MockedWith env (doApply env s1 o key k none).1 (key % 1000) (.cb k) := by
   -- the mocker handed out is fresh: no sticky Origin
   have hfresh : ((getMocker s1 o key).1.mockers (getMocker s1 o key).2).origin = none ∧
       ((getMocker s1 o key).1.mockers (getMocker s1 o key).2).target = key % 1000 := by
@@ -390,25 +396,19 @@ theorem remock_core {env : Env} (he : EnvOk env) {s1 : St} (i1 : Inv env s1) (o 
     have : ¬ (13 ≥ env.funcSize (key % 1000)) := by omega
     simp only [this, if_false, hp, hnop]
     simp [mkGuard]
-  have a := applyImp_spec he g1 (getMocker s1 o key).2 (.cb k)
   have c := applyCb_spec he g1 (getMocker s1 o key).2 k
   have hstep : doApply env s1 o key k none = applyCb env (getMocker s1 o key).1 (getMocker s1 o key).2 k := rfl
-  rw [hstep]
-  refine ⟨by rw [c.2.2.1]; exact hok, ?_⟩
-  have := a.2.2.1 hok
-  rw [hfresh.2] at this
-  rw [c.2.1]
-  exact this
+  have hok' : (doApply env s1 o key k none).2 = none := by rw [hstep, c.2.2.1]; exact hok
+  exact ⟨hok', doApply_ok he i1 o key k none hok'⟩
 
 /-- **Re-mock after Reset works.** After any history followed by `Reset b`, `b.…Apply(cb k)` on a key of `b` (no `Origin`)
     succeeds whenever goom's own preconditions hold for the target (longer than the jump, first byte not the NOP sentinel),
-    and leaves exactly the jump to the callback over the pristine bytes. -/
+    and leaves exactly one entry jump over the pristine bytes that leads to the callback (`MockedWith`). -/
 theorem remock_after_reset {env : Env} (he : EnvOk env) (ops : List Op) (b key k : Nat)
     (hsz : 13 < env.funcSize (key % 1000))
     (hnop : Gen.Amd64.checkAlreadyPatch ((env.pristine (key % 1000)).take 13) = false) :
     let s1 := (step env (run env (init env) ops) (.reset b)).1
-    (step env s1 (.apply b key k none)).2 = none ∧
-    (step env s1 (.apply b key k none)).1.text (key % 1000) = overwrite (env.pristine (key % 1000)) (jumpTo (env.cbAddr k)) := by
+    (step env s1 (.apply b key k none)).2 = none ∧ MockedWith env (step env s1 (.apply b key k none)).1 (key % 1000) (.cb k) := by
   intro s1
   have hi := reachable_inv_init he ops
   obtain ⟨i1, c1, _, cn1, _⟩ := resetB_spec he hi b
@@ -436,7 +436,7 @@ theorem remock_after_reset_struct {env : Env} (he : EnvOk env) (ops : List Op) (
     (hnop : Gen.Amd64.checkAlreadyPatch ((env.pristine (key % 1000)).take 13) = false) :
     let s1 := (step env (run env (init env) ops) (.reset b)).1
     (step env s1 (.sapply b key k none kept)).2 = none ∧
-    (step env s1 (.sapply b key k none kept)).1.text (key % 1000) = overwrite (env.pristine (key % 1000)) (jumpTo (env.cbAddr k)) := by
+    MockedWith env (step env s1 (.sapply b key k none kept)).1 (key % 1000) (.cb k) := by
   intro s1
   have hi := reachable_inv_init he ops
   obtain ⟨i1, c1, sc1, _, cn2⟩ := resetB_spec he hi b
@@ -483,15 +483,24 @@ theorem entry_dispatch (e a : BitVec 64) (m : X86.Mach) :
     X86.exec (jumpTo a) { m with rip := e } = some { m with rip := m.mem64 a, rdx := a } :=
   C15.amd64_entry e a m
 
+/-- the class an implementation has when it runs -/
+def classOf : Imp → Beh
+  | .cb k => .cb k
+  | .stub n => .stub n
+
 /-- **The behaviour class is determined by the entry bytes** (any state, distinct funcvals at distinct addresses):
-    pristine entry ⇒ `orig`; the jump to callback `k`'s funcval ⇒ `cb k`; the jump to the `n`-th MakeFunc stub ⇒ `stub n`. -/
-theorem behaviour_of_text {env : Env} {nCb nS : Nat} (ha : AddrOk env nCb nS) (s : St) (f : Nat) (hS : s.nStubs ≤ nS) :
+    pristine entry ⇒ `orig`; the jump to callback `k`'s funcval ⇒ `cb k`; the jump to the `n`-th MakeFunc stub ⇒ `stub n`;
+    the jump to an installed adapter (generic targets) ⇒ the class of what the adapter forwards to. -/
+theorem behaviour_of_text {env : Env} {nCb nS nA : Nat} (ha : AddrOk env nCb nS nA) (s : St) (f : Nat)
+    (hS : s.nStubs ≤ nS) (hA : s.nAdapt ≤ nA) :
     ((s.text f).take 13 = (env.pristine f).take 13 → behaviour env s nCb f = .orig) ∧
     (∀ k, k < nCb → (s.text f).take 13 = jumpTo (env.cbAddr k) → jumpTo (env.cbAddr k) ≠ (env.pristine f).take 13 →
       behaviour env s nCb f = .cb k) ∧
     (∀ n, n < s.nStubs → (s.text f).take 13 = jumpTo (env.stubAddr n) → jumpTo (env.stubAddr n) ≠ (env.pristine f).take 13 →
-      behaviour env s nCb f = .stub n) := by
-  refine ⟨fun h => by simp [behaviour, h], ?_, ?_⟩
+      behaviour env s nCb f = .stub n) ∧
+    (∀ n imp, n < s.nAdapt → s.adapt n = some imp → (s.text f).take 13 = jumpTo (env.adaptAddr n) →
+      jumpTo (env.adaptAddr n) ≠ (env.pristine f).take 13 → behaviour env s nCb f = classOf imp) := by
+  refine ⟨fun h => by simp [behaviour, h], ?_, ?_, ?_⟩
   · intro k hk h hne
     have hfind : (List.range nCb).find? (fun k' => decide ((s.text f).take 13 = jumpTo (env.cbAddr k'))) = some k := by
       apply find?_unique _ k _ (List.mem_range.mpr hk) (by simp [h])
@@ -518,6 +527,60 @@ theorem behaviour_of_text {env : Env} {nCb nS : Nat} (ha : AddrOk env nCb nS) (s
     rw [if_neg (by rw [h]; exact hne), hcb]
     simp only []
     rw [hfind]
+  · intro n imp hn hi h hne
+    have hcb : (List.range nCb).find? (fun k' => decide ((s.text f).take 13 = jumpTo (env.cbAddr k'))) = none := by
+      rw [List.find?_eq_none]
+      intro x hx hp
+      have hp' : (s.text f).take 13 = jumpTo (env.cbAddr x) := by simpa using hp
+      exact ha.adapt_cb x n (by omega) (jumpTo_inj _ _ (by rw [← hp', h]))
+    have hst : (List.range s.nStubs).find? (fun n' => decide ((s.text f).take 13 = jumpTo (env.stubAddr n'))) = none := by
+      rw [List.find?_eq_none]
+      intro x hx hp
+      have hp' : (s.text f).take 13 = jumpTo (env.stubAddr x) := by simpa using hp
+      have := List.mem_range.mp hx
+      exact ha.adapt_stub x n (by omega) (by omega) (jumpTo_inj _ _ (by rw [← hp', h]))
+    have hfind : (List.range s.nAdapt).find? (fun n' => decide ((s.text f).take 13 = jumpTo (env.adaptAddr n'))) = some n := by
+      apply find?_unique _ n _ (List.mem_range.mpr hn) (by simp [h])
+      intro x hx hp
+      have hp' : (s.text f).take 13 = jumpTo (env.adaptAddr x) := by simpa using hp
+      have := List.mem_range.mp hx
+      exact ha.adapt_inj x n (by omega) (by omega) (jumpTo_inj _ _ (by rw [← hp', h]))
+    unfold behaviour
+    simp only []
+    rw [if_neg (by rw [h]; exact hne), hcb]
+    simp only []
+    rw [hst]
+    simp only []
+    unfold adaptClass
+    rw [hfind]
+    simp only [hi]
+    cases imp <;> rfl
+
+theorem hb_cb {nCb N k : Nat} (h : k < nCb) :
+    (∀ k', Imp.cb k = Imp.cb k' → k' < nCb) ∧ (∀ n, Imp.cb k = Imp.stub n → n < N) := by
+  constructor
+  · intro k' e; cases e; exact h
+  · intro n e; cases e
+
+theorem hb_stub {nCb N n : Nat} (h : n < N) :
+    (∀ k', Imp.stub n = Imp.cb k' → k' < nCb) ∧ (∀ n', Imp.stub n = Imp.stub n' → n' < N) := by
+  constructor
+  · intro k' e; cases e
+  · intro n' e; cases e; exact h
+
+/-- the class of a function whose entry is a jump to something that runs `imp` -/
+theorem behaviour_of_denotes {env : Env} {nCb nS nA : Nat} (ha : AddrOk env nCb nS nA) (s : St) (f : Nat)
+    (hS : s.nStubs ≤ nS) (hA : s.nAdapt ≤ nA) (a : BitVec 64) (imp : Imp)
+    (h5 : (s.text f).take 13 = jumpTo a) (h6 : jumpTo a ≠ (env.pristine f).take 13) (hd : Denotes env s a imp)
+    (hb : (∀ k, imp = .cb k → k < nCb) ∧ (∀ n, imp = .stub n → n < s.nStubs)) :
+    behaviour env s nCb f = classOf imp := by
+  rcases hd with e | ⟨n, hn, e, hi⟩
+  · subst e
+    cases imp with
+    | cb k => exact (behaviour_of_text ha s f hS hA).2.1 k (hb.1 k rfl) h5 h6
+    | stub n => exact (behaviour_of_text ha s f hS hA).2.2.1 n (hb.2 n rfl) h5 h6
+  · subst e
+    exact (behaviour_of_text ha s f hS hA).2.2.2 n imp hn hi h5 h6
 
 /-- **Ownership, all histories.** -/
 theorem reachable_own {env : Env} (he : EnvOk env) (ops : List Op) : ∀ {s : St}, Inv env s → Own env s → Own env (run env s ops) := by
@@ -528,87 +591,104 @@ theorem reachable_own {env : Env} (he : EnvOk env) (ops : List Op) : ∀ {s : St
 /-- what the entry bytes of `f` are in a state satisfying both invariants -/
 theorem entry_cases {env : Env} (he : EnvOk env) {s : St} (hi : Inv env s) (ho : Own env s) (f : Nat) :
     s.text f = env.pristine f ∨
-    ∃ id imp, id < s.nMockers ∧ (s.mockers id).target = f ∧ (s.mockers id).imp = some imp ∧ (s.mockers id).canceled = false ∧
-      s.text f = overwrite (env.pristine f) (jumpTo (impAddr env imp)) ∧
-      (s.text f).take 13 = jumpTo (impAddr env imp) ∧ jumpTo (impAddr env imp) ≠ (env.pristine f).take 13 ∧
+    ∃ id imp a, id < s.nMockers ∧ (s.mockers id).target = f ∧ (s.mockers id).imp = some imp ∧ (s.mockers id).canceled = false ∧
+      s.text f = overwrite (env.pristine f) (jumpTo a) ∧ Denotes env s a imp ∧
+      (s.text f).take 13 = jumpTo a ∧ jumpTo a ≠ (env.pristine f).take 13 ∧
       (∀ n, imp = .stub n → (s.mockers id).hasWhen = true ∧ n < s.nStubs) := by
   rcases hi.txt f with h | ⟨p, g, h1, h2, h3, h4⟩
   · exact Or.inl h
   · by_cases hp : s.text f = env.pristine f
     · exact Or.inl hp
     · right
-      obtain ⟨id, imp, hlt, hg, him, hj, hc, hs⟩ := ho.own f p g trivial h1 h2 h3 hp
+      obtain ⟨id, imp, hlt, hg, him, ⟨a, hj, hd⟩, hc, hs⟩ := ho.own f p g trivial h1 h2 h3 hp
       have hr := hi.reg f p g h1 h2
       have htg : (s.mockers id).target = f := by rw [← (hi.mg id g hg).2]; exact hr.2
       rw [hj] at h4
-      refine ⟨id, imp, hlt, htg, him, hc, h4, ?_, ?_, hs⟩
-      · rw [h4]; have := overwrite_takeJ (env.pristine f) (jumpTo (impAddr env imp)); rw [C02L.jump_length] at this; exact this
+      refine ⟨id, imp, a, hlt, htg, him, hc, h4, hd, ?_, ?_, hs⟩
+      · rw [h4]; have := overwrite_takeJ (env.pristine f) (jumpTo a); rw [C02L.jump_length] at this; exact this
       · intro e
         apply hp
         rw [h4, e]
         exact overwrite_take _ _ (by have := he f; omega)
 
 /-- **Behaviour classes over all reachable states.**  After any history, every function either has its pristine bytes and
-    class `orig`, or its entry is exactly the jump to the current implementation of an allocated, not cancelled mocker `μ`
-    of that function: class `cb k` if `μ.imp` is callback `k`, class `stub n` if it is the `n`-th MakeFunc stub — and then
-    `μ` still owns the `When` that stub serves (`hasWhen`). -/
-theorem behaviour_reachable {env : Env} {nCb nS : Nat} (he : EnvOk env) (ha : AddrOk env nCb nS) (ops : List Op) (f : Nat)
-    (hS : (run env (init env) ops).nStubs ≤ nS) :
+    class `orig`, or its entry is exactly one jump that leads — directly, or for a generic target through an installed
+    dictionary-dropping adapter — to the current implementation of an allocated, not cancelled mocker `μ` of that function:
+    class `cb k` if `μ.imp` is callback `k`, class `stub n` if it is the `n`-th MakeFunc stub, and then `μ` still owns the
+    `When` that stub serves (`hasWhen`). -/
+theorem behaviour_reachable {env : Env} {nCb nS nA : Nat} (he : EnvOk env) (ha : AddrOk env nCb nS nA) (ops : List Op) (f : Nat)
+    (hS : (run env (init env) ops).nStubs ≤ nS) (hA : (run env (init env) ops).nAdapt ≤ nA) :
     let s := run env (init env) ops
     (s.text f = env.pristine f ∧ behaviour env s nCb f = .orig) ∨
-    ∃ μ imp, μ < s.nMockers ∧ (s.mockers μ).target = f ∧ (s.mockers μ).imp = some imp ∧ (s.mockers μ).canceled = false ∧
-      s.text f = overwrite (env.pristine f) (jumpTo (impAddr env imp)) ∧ s.text f ≠ env.pristine f ∧
+    ∃ μ imp a, μ < s.nMockers ∧ (s.mockers μ).target = f ∧ (s.mockers μ).imp = some imp ∧ (s.mockers μ).canceled = false ∧
+      s.text f = overwrite (env.pristine f) (jumpTo a) ∧ Denotes env s a imp ∧ s.text f ≠ env.pristine f ∧
       (∀ k, imp = .cb k → k < nCb → behaviour env s nCb f = .cb k) ∧
       (∀ n, imp = .stub n → (s.mockers μ).hasWhen = true ∧ behaviour env s nCb f = .stub n) := by
   intro s
   have hi : Inv env s := reachable_inv_init he ops
   have ho : Own env s := reachable_own he ops (inv_init env) (own_init env)
-  rcases entry_cases he hi ho f with h | ⟨id, imp, hlt, htg, him, hc, h4, h5, h6, hs⟩
-  · exact Or.inl ⟨h, (behaviour_of_text ha s f hS).1 (by rw [h])⟩
+  rcases entry_cases he hi ho f with h | ⟨id, imp, a, hlt, htg, him, hc, h4, hd, h5, h6, hs⟩
+  · exact Or.inl ⟨h, (behaviour_of_text ha s f hS hA).1 (by rw [h])⟩
   · right
-    refine ⟨id, imp, hlt, htg, him, hc, h4, ?_, ?_, ?_⟩
+    refine ⟨id, imp, a, hlt, htg, him, hc, h4, hd, ?_, ?_, ?_⟩
     · intro e; apply h6; rw [← h5, e]
-    · intro k hk hlt'; subst hk; exact (behaviour_of_text ha s f hS).2.1 k hlt' h5 h6
+    · intro k hk hlt'; subst hk
+      exact behaviour_of_denotes ha s f hS hA a (.cb k) h5 h6 hd (hb_cb hlt')
     · intro n hn; subst hn
-      exact ⟨(hs n rfl).1, (behaviour_of_text ha s f hS).2.2 n (hs n rfl).2 h5 h6⟩
+      exact ⟨(hs n rfl).1, behaviour_of_denotes ha s f hS hA a (.stub n) h5 h6 hd (hb_stub (hs n rfl).2)⟩
 
-/-- **A step that does not write `g` does not change `g`'s class** (reachable states; the stub counter may grow). -/
-theorem behaviour_stable {env : Env} {nCb nS : Nat} (he : EnvOk env) (ha : AddrOk env nCb nS) (ops : List Op) (op : Op) (g : Nat)
-    (hS : (step env (run env (init env) ops) op).1.nStubs ≤ nS) :
+/-- **A step that does not write `g` does not change `g`'s class** (reachable states; the stub counter and the adapter table may grow). -/
+theorem behaviour_stable {env : Env} {nCb nS nA : Nat} (he : EnvOk env) (ha : AddrOk env nCb nS nA) (ops : List Op) (op : Op) (g : Nat)
+    (hS : (step env (run env (init env) ops) op).1.nStubs ≤ nS) (hA : (step env (run env (init env) ops) op).1.nAdapt ≤ nA) :
     let s := run env (init env) ops
     (step env s op).1.text g = s.text g → behaviour env (step env s op).1 nCb g = behaviour env s nCb g := by
   intro s htx
   have hS : (step env s op).1.nStubs ≤ nS := hS
+  have hA : (step env s op).1.nAdapt ≤ nA := hA
   have hi : Inv env s := reachable_inv_init he ops
   have ho : Own env s := reachable_own he ops (inv_init env) (own_init env)
   have hmono := step_nStubs_mono env s op
-  rcases entry_cases he hi ho g with h | ⟨id, imp, _, _, _, _, _, h5, h6, hs⟩
-  · rw [(behaviour_of_text ha s g (by omega)).1 (by rw [h]), (behaviour_of_text ha _ g hS).1 (by rw [htx, h])]
-  · -- same bytes, and the stub search finds the same thing in the longer range
-    have hsearch : (List.range (step env s op).1.nStubs).find? (fun n => decide ((s.text g).take 13 = jumpTo (env.stubAddr n)))
-        = (List.range s.nStubs).find? (fun n => decide ((s.text g).take 13 = jumpTo (env.stubAddr n))) := by
-      cases imp with
-      | cb k =>
-        have hn : ∀ N, N ≤ nS → (List.range N).find? (fun n => decide ((s.text g).take 13 = jumpTo (env.stubAddr n))) = none := by
-          intro N hN
-          rw [List.find?_eq_none]
-          intro x hx hp
-          have hp' : (s.text g).take 13 = jumpTo (env.stubAddr x) := by simpa using hp
-          have := List.mem_range.mp hx
-          exact ha.disjoint k x (by omega) (jumpTo_inj _ _ (by have h5' : (s.text g).take 13 = jumpTo (env.cbAddr k) := h5; rw [← h5', hp']))
-        rw [hn _ hS, hn _ (by omega)]
-      | stub n =>
-        have hlt := (hs n rfl).2
-        have hn : ∀ N, n < N → N ≤ nS → (List.range N).find? (fun n' => decide ((s.text g).take 13 = jumpTo (env.stubAddr n'))) = some n := by
-          intro N hN hN'
-          apply find?_unique _ n _ (List.mem_range.mpr hN) (by simp [h5, impAddr])
-          intro x hx hp
-          have hp' : (s.text g).take 13 = jumpTo (env.stubAddr x) := by simpa using hp
-          have := List.mem_range.mp hx
-          exact ha.stub_inj x n (by omega) (by omega) (jumpTo_inj _ _ (by rw [← hp', h5]; rfl))
-        rw [hn _ (by omega) hS, hn _ hlt (by omega)]
-    unfold behaviour
-    simp only [htx, hsearch]
+  have hle := step_adaptLe env s op
+  rcases entry_cases he hi ho g with h | ⟨id, imp, a, _, _, _, _, _, hd, h5, h6, hs⟩
+  · rw [(behaviour_of_text ha s g (by omega) (by have := hle.1; omega)).1 (by rw [h]),
+        (behaviour_of_text ha _ g hS hA).1 (by rw [htx, h])]
+  · -- same bytes; the class is read off what the jump denotes, which the step does not change
+    have h5' : ((step env s op).1.text g).take 13 = jumpTo a := by rw [htx]; exact h5
+    cases imp with
+    | cb k =>
+      by_cases hk : k < nCb
+      · rw [behaviour_of_denotes ha _ g hS hA a (.cb k) h5' h6 (hd.mono hle) (hb_cb hk),
+            behaviour_of_denotes ha s g (by omega) (by have := hle.1; omega) a (.cb k) h5 h6 hd (hb_cb hk)]
+      · -- a callback the observer does not know: reached only through an adapter, or unknown in both states
+        rcases hd with e | ⟨n, hn, e, hin⟩
+        · subst e
+          -- neither search sees it, in either state
+          have nost : ∀ N, N ≤ nS → (List.range N).find? (fun n => decide ((s.text g).take 13 = jumpTo (env.stubAddr n))) = none := by
+            intro N hN
+            rw [List.find?_eq_none]
+            intro x hx hp
+            have hp' : (s.text g).take 13 = jumpTo (env.stubAddr x) := by simpa using hp
+            have := List.mem_range.mp hx
+            exact ha.disjoint k x (by omega) (jumpTo_inj _ _ (by have h5'' : (s.text g).take 13 = jumpTo (env.cbAddr k) := h5; rw [← h5'', hp']))
+          have noad : ∀ (st : St), st.nAdapt ≤ nA → adaptClass env st ((s.text g).take 13) = .unknown := by
+            intro st hst
+            unfold adaptClass
+            have : (List.range st.nAdapt).find? (fun n => decide ((s.text g).take 13 = jumpTo (env.adaptAddr n))) = none := by
+              rw [List.find?_eq_none]
+              intro x hx hp
+              have hp' : (s.text g).take 13 = jumpTo (env.adaptAddr x) := by simpa using hp
+              have := List.mem_range.mp hx
+              exact ha.adapt_cb k x (by omega) (jumpTo_inj _ _ (by have h5'' : (s.text g).take 13 = jumpTo (env.cbAddr k) := h5; rw [← h5'', hp']))
+            rw [this]
+          unfold behaviour
+          simp only [htx, nost _ hS, nost _ (by omega : s.nStubs ≤ nS), noad _ hA, noad s (by have := hle.1; omega)]
+        · subst e
+          rw [(behaviour_of_text ha _ g hS hA).2.2.2 n (.cb k) (Nat.lt_of_lt_of_le hn hle.1) (by rw [hle.2 n hn]; exact hin) h5' h6,
+              (behaviour_of_text ha s g (by omega) (by have := hle.1; omega)).2.2.2 n (.cb k) hn hin h5 h6]
+    | stub n =>
+      have hlt := (hs n rfl).2
+      rw [behaviour_of_denotes ha _ g hS hA a (.stub n) h5' h6 (hd.mono hle) (hb_stub (by omega)),
+          behaviour_of_denotes ha s g (by omega) (by have := hle.1; omega) a (.stub n) h5 h6 hd (hb_stub hlt)]
 
 /-- the function and callback an `Apply` goes to, for every way of reaching the mocker: builder lookup, struct-level lookup
     (fresh or through a kept struct mocker), kept mocker handle -/
@@ -625,14 +705,24 @@ def retTarget (s : St) : Op → Option Nat
   | .retH b key => (s.handle b key).map (fun id => (s.mockers id).target)
   | _ => none
 
-/-- **After a successful `Apply(cb k)` — through any via — the target's class is exactly `cb k`**, its bytes are the jump to
-    that callback over the pristine bytes (which `entry_dispatch` says enters the callback's funcval). -/
-theorem apply_class {env : Env} {nCb nS : Nat} (he : EnvOk env) (ha : AddrOk env nCb nS) {s : St} (hi : Inv env s) (op : Op) (t k : Nat)
-    (hop : applyTarget s op = some (t, k)) (hok : (step env s op).2 = none) (hk : k < nCb) (hS : (step env s op).1.nStubs ≤ nS) :
-    (step env s op).1.text t = overwrite (env.pristine t) (jumpTo (env.cbAddr k)) ∧
-    behaviour env (step env s op).1 nCb t = .cb k := by
-  have key : (step env s op).1.text t = overwrite (env.pristine t) (jumpTo (env.cbAddr k)) ∧
-      jumpTo (env.cbAddr k) ≠ (env.pristine t).take 13 := by
+/-- the class of a function that is `MockedWith` an implementation the observer knows -/
+theorem class_of_mockedWith {env : Env} {nCb nS nA : Nat} (ha : AddrOk env nCb nS nA) (post : St) (t : Nat) (imp : Imp)
+    (hS : post.nStubs ≤ nS) (hA : post.nAdapt ≤ nA) (hm : MockedWith env post t imp)
+    (hb : (∀ k, imp = .cb k → k < nCb) ∧ (∀ n, imp = .stub n → n < post.nStubs)) :
+    behaviour env post nCb t = classOf imp := by
+  obtain ⟨a, h1, h2, h3, _⟩ := hm
+  refine behaviour_of_denotes ha post t hS hA a imp ?_ h2 h3 hb
+  rw [h1]
+  have := overwrite_takeJ (env.pristine t) (jumpTo a); rw [C02L.jump_length] at this; exact this
+
+/-- **After a successful `Apply(cb k)` — through any via — the target's class is exactly `cb k`**: its bytes are the pristine bytes
+    with one entry jump that leads to that callback's funcval (`entry_dispatch` says the jump enters the funcval it names) — for
+    a generic target through a freshly installed adapter that drops the dictionary word and forwards the arguments. -/
+theorem apply_class {env : Env} {nCb nS nA : Nat} (he : EnvOk env) (ha : AddrOk env nCb nS nA) {s : St} (hi : Inv env s) (op : Op) (t k : Nat)
+    (hop : applyTarget s op = some (t, k)) (hok : (step env s op).2 = none) (hk : k < nCb)
+    (hS : (step env s op).1.nStubs ≤ nS) (hA : (step env s op).1.nAdapt ≤ nA) :
+    MockedWith env (step env s op).1 t (.cb k) ∧ behaviour env (step env s op).1 nCb t = .cb k := by
+  have key : MockedWith env (step env s op).1 t (.cb k) := by
     cases op with
     | apply b key k' origin =>
       simp only [applyTarget, Option.some.injEq, Prod.mk.injEq] at hop
@@ -659,19 +749,19 @@ theorem apply_class {env : Env} {nCb nS : Nat} (he : EnvOk env) (ha : AddrOk env
         simp only [step, hh] at hok ⊢
         obtain ⟨_, c2, c3, _, _⟩ := applyCb_spec he hi id k'
         have h' : (applyImp env s id (.cb k')).2 = none := by rw [← c3]; exact hok
-        exact ⟨by rw [c2]; exact (applyImp_spec he hi id (.cb k')).2.2.1 h', applyImp_ok_ne he hi id (.cb k') h'⟩
+        refine ⟨dest env s id (.cb k'), by rw [c2]; exact (applyImp_spec he hi id (.cb k')).2.2.1 h', applyImp_ok_ne he hi id (.cb k') h',
+          ((applyImp_adapt env s id (.cb k')).2 h').mono (adaptLe_of_aux2 (applyCb_aux2 env s id k')), ?_⟩
+        intro hng; simp [dest, hng]
     | _ => simp [applyTarget] at hop
-  refine ⟨key.1, (behaviour_of_text ha _ t hS).2.1 k hk ?_ key.2⟩
-  rw [key.1]
-  have := overwrite_takeJ (env.pristine t) (jumpTo (env.cbAddr k)); rw [C02L.jump_length] at this; exact this
+  exact ⟨key, class_of_mockedWith ha _ t (.cb k) hS hA key (hb_cb hk)⟩
 
 /-- **After a successful `Return`/`When` that builds a new `When` — through any via — the target's class is exactly the
-    new stub**, the stub counter grew by one, and the entry is the jump to that stub over the pristine bytes. -/
-theorem ret_class {env : Env} {nCb nS : Nat} (he : EnvOk env) (ha : AddrOk env nCb nS) {s : St} (hi : Inv env s) (op : Op) (t : Nat)
+    new stub**: the stub counter grew by one, and the entry is one jump over the pristine bytes that leads to that stub (through a
+    fresh adapter for a generic target). -/
+theorem ret_class {env : Env} {nCb nS nA : Nat} (he : EnvOk env) (ha : AddrOk env nCb nS nA) {s : St} (hi : Inv env s) (op : Op) (t : Nat)
     (hop : retTarget s op = some t) (hok : (step env s op).2 = none) (hnew : (step env s op).1.nStubs = s.nStubs + 1)
-    (hS : (step env s op).1.nStubs ≤ nS) :
-    (step env s op).1.text t = overwrite (env.pristine t) (jumpTo (env.stubAddr s.nStubs)) ∧
-    behaviour env (step env s op).1 nCb t = .stub s.nStubs := by
+    (hS : (step env s op).1.nStubs ≤ nS) (hA : (step env s op).1.nAdapt ≤ nA) :
+    MockedWith env (step env s op).1 t (.stub s.nStubs) ∧ behaviour env (step env s op).1 nCb t = .stub s.nStubs := by
   have fresh : ∀ (s0 : St) (o key : Nat) (origin : Option Nat), (doRet env s0 o key origin).1.nStubs = s0.nStubs + 1 →
       ((setOrigin (getMocker s0 o key).1 (getMocker s0 o key).2 origin).mockers (getMocker s0 o key).2).hasWhen = false := by
     intro s0 o key origin h
@@ -684,14 +774,12 @@ theorem ret_class {env : Env} {nCb nS : Nat} (he : EnvOk env) (ha : AddrOk env n
       unfold doRet at h
       simp only [hw, if_true] at h
       omega
-  have key : (step env s op).1.text t = overwrite (env.pristine t) (jumpTo (env.stubAddr s.nStubs)) ∧
-      jumpTo (env.stubAddr s.nStubs) ≠ (env.pristine t).take 13 := by
+  have key : MockedWith env (step env s op).1 t (.stub s.nStubs) := by
     cases op with
     | ret b key origin =>
       simp only [retTarget, Option.some.injEq] at hop
       subst hop
-      have r := doRet_ok he hi b key origin (fresh s b key origin hnew) hok
-      exact ⟨r.1, r.2.1⟩
+      exact (doRet_ok he hi b key origin (fresh s b key origin hnew) hok).1
     | sret b key origin kept =>
       simp only [retTarget] at hop
       cases hs : structOf s b kept with
@@ -703,8 +791,7 @@ theorem ret_class {env : Env} {nCb nS : Nat} (he : EnvOk env) (ha : AddrOk env n
         simp only [step, hs] at hok hnew ⊢
         have hn := structOf_nStubs s b kept r hs
         rw [← hn] at hnew ⊢
-        have q := doRet_ok he (structOf_spec hi b kept r hs).1 r.2 key origin (fresh r.1 r.2 key origin hnew) hok
-        exact ⟨q.1, q.2.1⟩
+        exact (doRet_ok he (structOf_spec hi b kept r hs).1 r.2 key origin (fresh r.1 r.2 key origin hnew) hok).1
     | retH b key =>
       simp only [retTarget] at hop
       cases hh : s.handle b key with
@@ -721,20 +808,20 @@ theorem ret_class {env : Env} {nCb nS : Nat} (he : EnvOk env) (ha : AddrOk env n
           obtain ⟨w1, _, _, _, w5⟩ := whens_spec hi id
           have a := (applyImp_spec he w1 id (.stub s.nStubs)).2.2.1 hok
           have b' := applyImp_ok_ne he w1 id (.stub s.nStubs) hok
+          have d := (applyImp_adapt env (whens s id) id (.stub s.nStubs)).2 hok
           rw [(w5 id).1] at a b'
-          exact ⟨a, b'⟩
+          refine ⟨_, a, b', d, ?_⟩
+          intro hng; simp [dest, (w5 id).1, hng]
     | _ => simp [retTarget] at hop
-  refine ⟨key.1, (behaviour_of_text ha _ t hS).2.2 s.nStubs (by rw [hnew]; omega) ?_ key.2⟩
-  rw [key.1]
-  have := overwrite_takeJ (env.pristine t) (jumpTo (env.stubAddr s.nStubs)); rw [C02L.jump_length] at this; exact this
+  exact ⟨key, class_of_mockedWith ha _ t (.stub s.nStubs) hS hA key (hb_stub (by omega))⟩
 
 /-- **Operations on one target never change another target's class**: `other_targets_untouched` (bytes) with
     `behaviour_stable` (class), over all reachable states. -/
-theorem other_targets_class_unchanged {env : Env} {nCb nS : Nat} (he : EnvOk env) (ha : AddrOk env nCb nS) (ops : List Op) (op : Op)
-    (f : Nat) (hS : (step env (run env (init env) ops) op).1.nStubs ≤ nS)
+theorem other_targets_class_unchanged {env : Env} {nCb nS nA : Nat} (he : EnvOk env) (ha : AddrOk env nCb nS nA) (ops : List Op) (op : Op)
+    (f : Nat) (hS : (step env (run env (init env) ops) op).1.nStubs ≤ nS) (hA : (step env (run env (init env) ops) op).1.nAdapt ≤ nA)
     (hframe : (step env (run env (init env) ops) op).1.text f = (run env (init env) ops).text f) :
     behaviour env (step env (run env (init env) ops) op).1 nCb f = behaviour env (run env (init env) ops) nCb f :=
-  behaviour_stable he ha ops op f hS hframe
+  behaviour_stable he ha ops op f hS hA hframe
 
 /-- the hypotheses of the theorems above are satisfiable by a non-trivial state: two builders mock the same 16-byte
     function one after the other, the first builder resets: the image is pristine again and the invariant's
@@ -746,6 +833,8 @@ def exEnv : Env where
   fixOk := fun _ _ => true
   cbAddr := fun k => BitVec.ofNat 64 (0x6b3900 + 8 * (k % 1024))
   stubAddr := fun n => BitVec.ofNat 64 (0xc000000000 + 16 * n)
+  generic := fun f => f == 5
+  adaptAddr := fun n => BitVec.ofNat 64 (0xd000000000 + 16 * n)
 
 example : EnvOk exEnv := by intro f; simp [exEnv]
 
@@ -762,8 +851,8 @@ example : let s := run exEnv (init exEnv) [.keepS 0, .sapply 0 2007 1 none false
     s.scanceled 100 = false ∧ (step exEnv s (.reset 0)).1.text 7 = exEnv.pristine 7 ∧
     (step exEnv s (.reset 0)).1.text 8 = exEnv.pristine 8 := by decide
 
-example : AddrOk exEnv 4 16 := by
-  refine ⟨?_, ?_, ?_⟩
+example : AddrOk exEnv 4 16 16 := by
+  refine ⟨?_, ?_, ?_, ?_, ?_, ?_⟩
   · intro k k' hk hk' h
     have := congrArg BitVec.toNat h
     simp only [exEnv, BitVec.toNat_ofNat] at this
@@ -776,6 +865,25 @@ example : AddrOk exEnv 4 16 := by
     have := congrArg BitVec.toNat h
     simp only [exEnv, BitVec.toNat_ofNat] at this
     omega
+  · intro n n' hn hn' h
+    have := congrArg BitVec.toNat h
+    simp only [exEnv, BitVec.toNat_ofNat] at this
+    omega
+  · intro k n hn h
+    have := congrArg BitVec.toNat h
+    simp only [exEnv, BitVec.toNat_ofNat] at this
+    omega
+  · intro m n hm hn h
+    have := congrArg BitVec.toNat h
+    simp only [exEnv, BitVec.toNat_ofNat] at this
+    omega
+
+/-- a generic target (function 5): the entry jump leads to an adapter, the class is the callback's / the stub's; Reset restores -/
+example : let s := run exEnv (init exEnv) [.apply 0 5 1 none, .ret 1 5 none]
+    s.nAdapt = 2 ∧ s.adapt 0 = some (.cb 1) ∧ s.adapt 1 = some (.stub 0) ∧ behaviour exEnv s 4 5 = .stub 0 ∧
+    behaviour exEnv (run exEnv (init exEnv) [.apply 0 5 1 none]) 4 5 = .cb 1 ∧
+    (run exEnv (init exEnv) [.apply 0 5 1 none]).text 5 = overwrite (exEnv.pristine 5) (jumpTo (exEnv.adaptAddr 0)) ∧
+    (step exEnv s (.reset 1)).1.text 5 = exEnv.pristine 5 := by decide
 
 /-- hypotheses of `apply_class` / `ret_class` / `behaviour_stable`: a callback through a kept struct mocker, then a stub on
     another function through a kept handle; both succeed, a new stub is created, the first target's class is unchanged -/
